@@ -286,7 +286,7 @@ func TestC20(t *testing.T) {
 		fmt.Println(line)
 		st.Known(line)
 	}
-	n := stats.N(100, 400)
+	n := stats.N(300, 800)
 	st.Set("requested_checks", n)
 	stats.Check(t, n, 20, func(rt *rapid.T) {
 		w, l, _ := RunHistory(rt, st, HistOpts{Focus: []string{"C20"}, Features: GenFeatures, Steps: 28, Scripts: false, Reverts: true, Metadata: true, MaxPostings: 3})
